@@ -172,6 +172,13 @@ func run(c *harness.Ctx, i int) {
 		}
 	} else {
 		dsu.WriteFile(filepath.Join(served, "present.caibx"), idxBytes.Bytes())
+		// other objects of the store whose names are those of the request targets plus a suffix or prefix a careless
+		// implementation might use for its temporary files: a request for X must not touch them
+		for _, base := range []string{"present.caibx", "new.caibx"} {
+			for _, f := range []string{base + ".tmp", base + "~", base + ".part", base + ".new", base + ".bak", "." + base + ".tmp", base + ".lock"} {
+				dsu.WriteFile(filepath.Join(served, f), idxBytes.Bytes())
+			}
+		}
 		dsu.WriteFile(filepath.Join(box, "outside", "secret.caibx"), idxBytes.Bytes())
 	}
 	// a chunk that is not stored yet (upload target) and one whose upload carries wrong content
@@ -271,6 +278,8 @@ func run(c *harness.Ctx, i int) {
 			{"absolute-uri", "http://" + addr + "/" + sid[:4] + "/" + sid + ext},
 			{"query", "/" + sid[:4] + "/" + sid + ext + "?x=../../outside/sentinel"},
 			{"short", "/ab/cd"},
+			// the all-zero ID is also what an undecodable body "hashes" to inside desync
+			{"zero-id", "/0000/" + strings.Repeat("0", 64) + ext},
 		}
 	} else {
 		paths = []pathCase{
@@ -292,7 +301,7 @@ func run(c *harness.Ctx, i int) {
 			{"backslash", "/..\\outside\\secret.caibx"},
 		}
 	}
-	methods := []string{"GET", "HEAD", "PUT", "PUT-bad", "POST", "DELETE", "PATCH", "OPTIONS"}
+	methods := []string{"GET", "HEAD", "PUT", "PUT-bad", "PUT-bad", "POST", "DELETE", "PATCH", "OPTIONS"}
 	auths := authCases()
 	nreq := 60
 	polluted := false
@@ -311,6 +320,10 @@ func run(c *harness.Ctx, i int) {
 				}
 				if method == "PUT-bad" {
 					body = form([]byte("this is not the content of that chunk"))
+					if rng.Intn(2) == 0 {
+						// not even in the server's storage format (no zstd frame on a compressing server)
+						body = []byte("\x00garbage that is neither a frame nor the chunk\xff")
+					}
 				}
 			} else {
 				body = idxBytes.Bytes()
@@ -355,7 +368,10 @@ func run(c *harness.Ctx, i int) {
 		for _, d := range diffs {
 			allowed := false
 			if server == "chunk" {
-				for _, id := range []desync.ChunkID{newID, expectID} {
+				for _, id := range []desync.ChunkID{newID, expectID, {}} {
+					if id == (desync.ChunkID{}) && pc.class != "zero-id" {
+						continue
+					}
 					s := id.String()
 					cp := "served/" + s[:4] + "/" + s + ext
 					if d.Path == cp || d.Path == "served/"+s[:4] || d.Path == "served" {
